@@ -10,6 +10,6 @@ rsync -a --delete /verif/engine/src/ "$root/engine/src/"
 ( cd "$root/engine" && cargo +stable build --release --bin mfv 2>&1 | grep -E "^error" -A10 | head -30 )
 mkdir -p "$root/out"
 for id in "$@"; do
-  VERIF_ROOT="$root/out" VERIF_SEED="${VERIF_SEED:-0}" "$root/target/release/mfv" "$id" "${TIER:-quick}" 2>&1 | grep -E "^(C[0-9]+ |VIOLATION|  violated|INCONCLUSIVE|ENGINE)" | head -6
+  VERIF_ROOT="$root/out" VERIF_SEED="${VERIF_SEED:-0}" "$root/target/release/mfv" "$id" "${TIER:-quick}" 2>&1 | grep -E "^(C[0-9]+ |VIOLATION|  violated|INCONCLUSIVE|ENGINE)" | head -14
 done
 [ -n "${KEEP:-}" ] || ( cd "$root/repo" && git checkout -- . )
